@@ -448,6 +448,29 @@ Proof.
   rewrite H. f_equal. destruct r; reflexivity.
 Qed.
 
+(* ---------- StepNode's unknown-sender filter ---------- *)
+(* handleReceivedMessage drops every response whose sender is neither voter nor learner of the local configuration
+   BEFORE Step sees it; raft.poll itself would count any id. The predicate lists exactly the five response types. *)
+Theorem is_response_msg_spec : forall t, is_response_msg t = true <->
+  (t = msg_app_resp \/ t = msg_vote_resp \/ t = msg_heartbeat_resp \/ t = msg_unreachable \/ t = msg_pre_vote_resp).
+Proof.
+  intros t. unfold is_response_msg. rewrite !orb_true_iff, !N.eqb_eq. tauto.
+Qed.
+
+Theorem handle_received_drops_unknown_response : forall r m,
+  get_progress r (m_from m) = None -> is_response_msg (m_type m) = true -> handle_received r m = Ok r.
+Proof. intros r m H1 H2. unfold handle_received. rewrite H1, H2. reflexivity. Qed.
+
+(* a vote answer (of either kind) of a non-member — e.g. a replica removed between the request and its answer — is
+   never counted: the state, incl. the votes map and the role, is unchanged *)
+Theorem vote_of_non_member_not_counted : forall r m,
+  get_progress r (m_from m) = None -> (m_type m = msg_vote_resp \/ m_type m = msg_pre_vote_resp) ->
+  handle_received r m = Ok r.
+Proof.
+  intros r m H1 H2. apply handle_received_drops_unknown_response; [exact H1|].
+  apply is_response_msg_spec. tauto.
+Qed.
+
 (* ---------- concrete states for the non-vacuity examples of Properties/C01.v, C02.v ---------- *)
 (* node 2 of voters {1,2,3} (or learner 2 of voters {1,3}), term 1, no vote, no leader; log: entry 1 (payload),
    entry 2 (a configuration change: odd edata), committed = 2, applied = [applied] *)
